@@ -22,7 +22,7 @@ def check(run):
                 'property; the memoizing lock wrapper of the cached mode under every query sequence up to length 3 and random longer ones, with the base lock unchanged and changing between queries, vs Model/Memo.lean; cached mode along monotone histories of 3-5 states with an on-disk cache file; the stores `jug invalidate` leaves behind (all complete but one task and what is built on it, the runnable ones marked failed or not) for the check walk and the tables; the one-line summary of --short (cached and uncached) on every state; non-trivial = the state has complete, waiting and at least one locked runnable task; distinct by (program, state)')
     run.assumptions = ['direct dependencies = what Task.dependencies() reports (its agreement with the results a task really reads is C03)', 'between cached calls results are only added and the jugfile is unchanged',
                        'check: stores closed under dependencies (what execute/invalidate/cleanup produce)']
-    run.trusted = ['Lean 4.33.0 kernel', 'axioms propext, Classical.choice, Quot.sound', 'harness/jugverif/extract_status.py (exhaustive table of the real update_status)', 'harness/jugverif/graphcheck.py']
+    run.trusted = ['Lean 4.33.0 kernel', 'axioms propext, Classical.choice, Quot.sound', 'harness/jugverif/extract_status.py (exhaustive table of the real update_status)', 'harness/jugverif/graphcheck.py', 'harness/jugverif/storecheck.py (drives the real memoize_store / cache_lock over the backends)']
     extract()
     run.lean(['JugModel.Props.C15', 'JugModel.Props.Memo', 'jugdrv'], theorems_expected=THEOREMS)
     drv = core.Driver() if run.driver_ok else None
